@@ -132,6 +132,11 @@ def gen_cases(rng, n):
             lines = break_lines(rng, letters, '')
             circ = kind == 'ig' and rng.random() < 0.5
             cases.append({'kind': kind, 'alpha': alpha, 'letters': letters, 'lines': lines, 'circular': circ})
+            if kind == 'fasta' and rng.random() < 0.4:
+                # further records after the first (FASTA of a complex: other chains, possibly of another molecule type);
+                # the residue graph is that of the first record
+                cases[-1]['more_records'] = [[rng.choice(['DNA', 'RNA', 'AA']), ''.join(rng.choice('ACGT') for _ in range(rng.randint(2, 8)))]
+                                             for _ in range(rng.randint(1, 2))]
         else:
             tags = ['A', 'B', 'C'][:rng.randint(1, 3)]
             macros = [(t, rng.randint(1, 4), rng.randint(1, 3), rng.choice(NAMES)) for t in tags]
@@ -206,7 +211,8 @@ def run_impl(case, wd):
     if k == 'txt':
         return impl_file(wd, 's.txt', '\n'.join(case['lines']) + '\n')
     if k == 'fasta':
-        return impl_file(wd, 's.fasta', f"> {KEYWORD[case['alpha']]} test\n" + '\n'.join(case['lines']) + '\n')
+        more = ''.join(f"> {KEYWORD[a]} chain {i + 2}\n{letters}\n" for i, (a, letters) in enumerate(case.get('more_records', [])))
+        return impl_file(wd, 's.fasta', f"> {KEYWORD[case['alpha']]} test\n" + '\n'.join(case['lines']) + '\n' + more)
     if k == 'ig':
         body = list(case['lines'])
         body[-1] += '2' if case['circular'] else '1'
@@ -331,6 +337,8 @@ def run(ctx):
                 ctx.feature('rejected')
             if case.get('circular'):
                 ctx.feature('circular')
+            if case.get('more_records'):
+                ctx.feature('fasta_with_several_records')
             if exp == 'error':
                 if impl[0] != 'error':
                     ctx.violation('spec', f"a sequence with a letter outside the {case['alpha']} alphabet is accepted: {impl[0][:6]}", {'case': case})
